@@ -94,6 +94,10 @@ fn same_obs(a: &[f64], b: &[f64], max_ulps: u64) -> bool {
 
 /// shared check for states that wrap an Arithmetic over derived data `d` (in F)
 fn check_mean_state<F: Fl>(what: &str, ty: &str, d: &[f64], count: usize, mean: f64, var: Option<f64>, got: Out<Interval<F>>, conf: &Conf, depth: u32, obs: &mut Obs) -> PResult {
+    check_mean_state_x::<F>(what, ty, d, count, mean, 0.0, var, got, conf, depth, obs)
+}
+/// `extra` is an additional absolute allowance on the mean (round trips through exp/ln or 1/x)
+fn check_mean_state_x<F: Fl>(what: &str, ty: &str, d: &[f64], count: usize, mean: f64, extra: f64, var: Option<f64>, got: Out<Interval<F>>, conf: &Conf, depth: u32, obs: &mut Obs) -> PResult {
     ensure!(count == d.len(), format!("C09/{what}/sample_count"), "{ty}: sample_count {count}, the history delivered {} observations", d.len());
     if d.len() < 2 {
         return Ok(());
@@ -110,7 +114,7 @@ fn check_mean_state<F: Fl>(what: &str, ty: &str, d: &[f64], count: usize, mean: 
         return Ok(());
     }
     let e = (mean - r.mean).abs();
-    let t = 2.0 * r.tol_mean::<F>(depth);
+    let t = 2.0 * r.tol_mean::<F>(depth) + extra;
     ensure!(e <= t, format!("C09/{what}/mean"), "{ty}: mean {mean:e} vs exact mean of the multiset {:e} (err {e:e} > tol {t:e}, n {}, merge depth {depth})", r.mean, r.n);
     obs.headroom(&format!("mean/{ty}"), e / t, || json!({"n": r.n, "depth": depth}));
     if let Some(v) = var {
@@ -189,7 +193,10 @@ fn check_state<F: Fl>(what: &str, ty: &str, d: &[f64], count: usize, mean: f64, 
                             _ => Interval::LowerOneSided(F::from64(h.ln())),
                         }
                     };
-                    if (k != 2 && !(l > 0.0 && l.is_finite())) || (k != 1 && !(h > 0.0 && h.is_finite())) {
+                    // bounds in the subnormal range (or at overflow) have lost precision in exp: not comparable in log space
+                    let tiny = F::min_positive_value().to64() * 1024.0;
+                    let huge = F::max_value().to64() / 1024.0;
+                    if (k != 2 && !(l > tiny && l < huge)) || (k != 1 && !(h > tiny && h < huge)) {
                         obs.exclude("geometric bound under/overflows the float type");
                         return Ok(());
                     }
@@ -199,7 +206,7 @@ fn check_state<F: Fl>(what: &str, ty: &str, d: &[f64], count: usize, mean: f64, 
                 Out::Panic(p) => Out::Panic(p),
             };
             // one more level of slack for the exp/ln round trip
-            check_mean_state::<F>(what, ty, d, count, mean.ln(), None, got_log, conf, depth + 1, obs)
+            check_mean_state_x::<F>(what, ty, d, count, mean.ln(), 4.0 * F::U * (1.0 + mean.ln().abs()), None, got_log, conf, depth + 1, obs)
         }
         _ => {
             // harmonic: 1/mean is the mean of reciprocals; the interval is the reciprocal of the flipped one
@@ -228,7 +235,7 @@ fn check_state<F: Fl>(what: &str, ty: &str, d: &[f64], count: usize, mean: f64, 
                 Out::Err(e) => Out::Err(e),
                 Out::Panic(p) => Out::Panic(p),
             };
-            check_mean_state::<F>(what, ty, d, count, 1.0 / mean, None, got_rec, &conf.flipped(), depth + 1, obs)
+            check_mean_state_x::<F>(what, ty, d, count, 1.0 / mean, 4.0 * F::U * (1.0 / mean).abs(), None, got_rec, &conf.flipped(), depth + 1, obs)
         }
     }
 }
